@@ -10,8 +10,9 @@ import (
 )
 
 type encEvent struct {
-	kind string // "start", "end", "encode", "element"
-	v    value  // token (structure) or encoded value (iface)
+	kind  string // "start", "end", "chardata", "encode", "element"
+	v     value  // token (iface of structure) or encoded value (iface)
+	start value  // EncodeElement: the start element (structure)
 }
 
 type encRec struct {
@@ -70,25 +71,25 @@ func init() {
 		kind := "token"
 		if itf.t != nil {
 			switch shortTypeName(itf.t) {
-			case "xml.StartElement":
+			case "StartElement":
 				kind = "start"
-			case "xml.EndElement":
+			case "EndElement":
 				kind = "end"
-			case "xml.CharData":
+			case "CharData":
 				kind = "chardata"
 			}
 		}
-		r.events = append(r.events, encEvent{kind, snapVal(itf, 0)})
+		r.events = append(r.events, encEvent{kind: kind, v: snapVal(itf, 0)})
 		return iface{}
 	}
 	externals["(*encoding/xml.Encoder).Encode"] = func(fr *frame, args []value) value {
 		r := recv(fr, args[0])
-		r.events = append(r.events, encEvent{"encode", args[1]})
+		r.events = append(r.events, encEvent{kind: "encode", v: args[1]})
 		return iface{}
 	}
 	externals["(*encoding/xml.Encoder).EncodeElement"] = func(fr *frame, args []value) value {
 		r := recv(fr, args[0])
-		r.events = append(r.events, encEvent{"element", args[1]})
+		r.events = append(r.events, encEvent{kind: "element", v: args[1], start: snapVal(args[2], 0)})
 		return iface{}
 	}
 	externals["(encoding/xml.StartElement).End"] = func(fr *frame, args []value) value {
